@@ -174,6 +174,9 @@ class Controller:
         # VV: Locks all `comp_` data and makes the Scheduler a critical region
         self.comp_lock = threading.RLock()
         self.comp_staged_in = set()  # type: Set[ComponentState]
+        # VV: Components that _fake_finish_with_state() asked to finish without running them, and the state they
+        #     will (asynchronously) end up in
+        self._fake_finish_states = {}  # type: Dict[str, str]
 
         # VV: Finished/Failed/Shutdown components go in here, this lets us only consider a ComponentState to be done
         #     if we have Observed its termination even though the ComponentState might be reporting otherwise.
@@ -913,6 +916,7 @@ class Controller:
                 op.filter(lambda e: e[1].finishCalled is False)
             ).subscribe(on_next=postmortem_check, on_error=on_error_notifyPostMortem(component))
         self.comp_staged_in.add(component)
+        self._fake_finish_states[name] = new_state
         component.finish(new_state)
 
     def _comp_get_active_predecessors(self, component):
@@ -1087,7 +1091,15 @@ class Controller:
                     is_aggregate = (comp.specification.componentSpecification.isAggregating
                                     or comp.specification.componentSpecification.isAggregatingLoopedNodes)
 
-                    producers_failed = [pr for pr in dependencies if pr.state == experiment.model.codes.FAILED_STATE]
+                    def producer_state(prod):
+                        # type: (experiment.runtime.workflow.ComponentState) -> str
+                        """A producer which was asked to finish without ever running (_fake_finish_with_state) reaches
+                        its final state asynchronously but counts as staged-in right away: consumers which only wait
+                        for their producers to stage-in (repeating components) must already see that final state"""
+                        return self._fake_finish_states.get(prod.specification.reference, prod.state)
+
+                    producers_failed = [pr for pr in dependencies
+                                        if producer_state(pr) == experiment.model.codes.FAILED_STATE]
                     SHUTDOWN_STATE = experiment.model.codes.SHUTDOWN_STATE
 
                     if producers_failed:
@@ -1108,8 +1120,9 @@ class Controller:
                         tp = experiment.runtime.workflow.ComponentState
                         replica_inputs = [p for p in dependencies if producer_is_aggregated(p)]
                         non_replica_inputs = [p for p in dependencies if p not in replica_inputs]
-                        shutdown_replicas = [p for p in replica_inputs if cast(tp, p).state == SHUTDOWN_STATE]
-                        shutdown_non_replicas = [p for p in non_replica_inputs if cast(tp, p).state == SHUTDOWN_STATE]
+                        shutdown_replicas = [p for p in replica_inputs if producer_state(cast(tp, p)) == SHUTDOWN_STATE]
+                        shutdown_non_replicas = [p for p in non_replica_inputs
+                                                 if producer_state(cast(tp, p)) == SHUTDOWN_STATE]
 
                         if shutdown_non_replicas:
                             self.log.warning("Aggregating component %s will shutdown because of SHUTDOWN "
@@ -1124,7 +1137,7 @@ class Controller:
                         else:
                             ready.append(comp)
                     else:
-                        producers_shutdown = [pr for pr in dependencies if pr.state == SHUTDOWN_STATE]
+                        producers_shutdown = [pr for pr in dependencies if producer_state(pr) == SHUTDOWN_STATE]
                         if producers_shutdown:
                             self.log.warning(
                                 "Non Aggregating component %s will shutdown because of SHUTDOWN inputs %s" % (
